@@ -242,13 +242,61 @@ pub fn gen_send(run: &mut Run, rng: &mut Rng, thorough: bool) {
     }
 }
 
+/// `set_payload` of every packet view with a payload that fits behind the header the buffer
+/// describes: must not panic and must read back through `payload()` (implementation-only oracle
+/// `c04-accessor-panic` / `c12-payload-readback`; these mutators are not part of the Lean model)
+pub fn gen_set_payload(run: &mut Run, rng: &mut Rng, thorough: bool) {
+    use trippy_packet::{icmpv4, icmpv6, ipv4::Ipv4Packet, ipv6::Ipv6Packet, tcp::TcpPacket, udp::UdpPacket};
+    let kinds = ["ipv4", "ipv6", "udp", "tcp", "echoreq4", "echorep4", "echoreq6", "echorep6"];
+    for kind in kinds {
+        for _ in 0..if thorough { 2000 } else { 200 } {
+            let min = match kind { "ipv4" | "tcp" => 20, "ipv6" => 40, _ => 8 };
+            let len = min + rng.below(100) as usize;
+            let mut b = rng.bytes(len);
+            // a header that fits the buffer, so that a payload of the remaining length fits as well
+            let hdr = match kind {
+                "ipv4" => { let ihl = rng.range(5, ((len / 4).min(15)) as u64) as u8; b[0] = 0x40 | ihl; usize::from(ihl) * 4 }
+                "tcp" => { let off = rng.range(5, ((len / 4).min(15)) as u64) as u8; b[12] = off << 4; usize::from(off) * 4 }
+                "ipv6" => { let pl = (len - 40) as u16; b[4] = (pl >> 8) as u8; b[5] = pl as u8; 40 }
+                _ => 8,
+            };
+            let n = rng.below((len - hdr) as u64 + 1) as usize;
+            let vals = rng.bytes(n);
+            let desc = format!("set_payload {kind} buf={} vals={}", crate::util::hex(&b), crate::util::hex(&vals));
+            let r = crate::util::guarded(|| -> Option<Vec<u8>> {
+                let mut m = b.clone();
+                Some(match kind {
+                    "ipv4" => { let mut v = Ipv4Packet::new(&mut m).ok()?; v.set_payload(&vals); v.payload().to_vec() }
+                    "ipv6" => { let mut v = Ipv6Packet::new(&mut m).ok()?; v.set_payload(&vals); v.payload().to_vec() }
+                    "udp" => { let mut v = UdpPacket::new(&mut m).ok()?; v.set_payload(&vals); v.payload().to_vec() }
+                    "tcp" => { let mut v = TcpPacket::new(&mut m).ok()?; v.set_payload(&vals); v.payload().to_vec() }
+                    "echoreq4" => { let mut v = icmpv4::echo_request::EchoRequestPacket::new(&mut m).ok()?; v.set_payload(&vals); v.payload().to_vec() }
+                    "echorep4" => { let mut v = icmpv4::echo_reply::EchoReplyPacket::new(&mut m).ok()?; v.set_payload(&vals); v.payload().to_vec() }
+                    "echoreq6" => { let mut v = icmpv6::echo_request::EchoRequestPacket::new(&mut m).ok()?; v.set_payload(&vals); v.payload().to_vec() }
+                    _ => { let mut v = icmpv6::echo_reply::EchoReplyPacket::new(&mut m).ok()?; v.set_payload(&vals); v.payload().to_vec() }
+                })
+            });
+            run.count("set-payload");
+            match r {
+                Err(loc) => run.fail("c04-accessor-panic", format!("{desc} ({loc})")),
+                Ok(Some(p)) => {
+                    if p.len() < vals.len() || p[..vals.len()] != vals[..] {
+                        run.fail("c12-payload-readback", desc);
+                    }
+                }
+                Ok(None) => {}
+            }
+        }
+    }
+}
+
 pub fn gen_slice(run: &mut Run, rng: &mut Rng, thorough: bool) {
     let lens: Vec<usize> = (0..=72).chain([96, 128, 255, 256, 300]).collect();
     for (acc, min) in ACCESSORS {
         // the octets that steer the slice bounds × every length
         for &len in lens.iter().filter(|l| **l >= min) {
             let steer: Vec<Vec<(usize, u8)>> = match acc {
-                "ipv4Payload" | "ipv4OptionsRaw" => (0..16u8).map(|i| vec![(0, 0x40 | i)]).collect(),
+                "ipv4Payload" | "ipv4OptionsRaw" | "ipv4OptionsRawMut" => (0..16u8).map(|i| vec![(0, 0x40 | i)]).collect(),
                 "tcpPayload" | "tcpOptionsRaw" => (0..16u8).map(|i| vec![(12, i << 4)]).collect(),
                 "ipv6Payload" => {
                     let mut v: Vec<u16> = (0..=40).collect();
